@@ -587,24 +587,32 @@ ${html_comment}"""
 
     def __call__(self, environ, start_response):
         req = Request(environ)
+        # the location as the application gave it: this instance may serve
+        # other requests, each to be resolved against its own URL
+        location = self.location
 
-        if self.add_slash:
-            url = req.path_url
-            url += "/"
+        try:
+            if self.add_slash:
+                url = req.path_url
+                url += "/"
 
-            if req.environ.get("QUERY_STRING"):
-                url += "?" + req.environ["QUERY_STRING"]
-            self.location = url
+                if req.environ.get("QUERY_STRING"):
+                    url += "?" + req.environ["QUERY_STRING"]
+                self.location = url
 
-        if self.location:
-            # the same resolution (and the same protection against a
-            # location that urljoin would take for a network-path
-            # reference) as for any other response
-            self.location = self._make_location_absolute(environ, self.location)
-        else:
-            self.location = req.path_url
+            if self.location:
+                # the same resolution (and the same protection against a
+                # location that urljoin would take for a network-path
+                # reference) as for any other response
+                self.location = self._make_location_absolute(
+                    environ, self.location
+                )
+            else:
+                self.location = req.path_url
 
-        return super().__call__(environ, start_response)
+            return super().__call__(environ, start_response)
+        finally:
+            self.location = location
 
 
 class HTTPMultipleChoices(_HTTPMove):
